@@ -11,6 +11,8 @@
 //!   build simple                               -> ctl=d,e,s;… raw=<inflated control bytes> diff=<hex> extra=<hex> out=<n> | err:<class>
 //!   build chunked <max_diff_block_size>        -> same
 //!   build suffix <sa: comma separated | ->     -> same   (sa = suffix array of old)
+//!   build suffixb <max_diff_block_size> <sa>   -> same   (with_max_diff_block_size(n).build(): the suffix builder under a configured block size)
+//!   sa <sa>                                    -> ok     (large old: the suffix array once per case; later suffix lines say `@sa`)
 //!   apply mem <ctl-bytes> <diff> <extra> <out> -> <hex> | err:<class>
 //!   apply stream <buf> <ctl-bytes> <diff> <extra> <out> -> same
 //!   apply streamd <ctl-bytes> <diff> <extra> <out>          -> same (ZbsdiffPatcher::new default buffer, no with_buffer_size)
@@ -27,6 +29,14 @@
 //!   codec dec <8 bytes>                        -> the seek ControlBlock::from_compressed reads (private offtin)
 //! `<ctl-bytes>` is the inflated control block (24-byte sign-magnitude records), the blocks are
 //! the inflated diff / extra blocks, all recovered from the patch BYTES the builder returned.
+//!
+//! Large cases ("large blocks": 16 KiB .. 200 KB per block): a byte-string token of >= REF_MIN bytes
+//! that IS one of the following is written as a reference instead of hex —
+//!   @c @d @e     inflated control / diff / extra block of the last build / buildp line that returned a patch
+//!   @p           the patch bytes of the last buildp line;  @zc @zd @ze  its three stored slices
+//! (here: of the REAL builder's patch; in the driver: of the MODEL's patch — the preceding build /
+//! buildp line compares the two) and a byte string of >= DIGEST_MIN bytes in a response is written
+//! `#<length>:<FNV-1a 64>` on both sides.
 use cascette_formats::zbsdiff::{
     ControlBlock, ControlEntry, ZBSDIFF1_SIGNATURE, ZbsDiff, ZbsdiffBuilder, ZbsdiffError, ZbsdiffHeader,
     ZbsdiffPatcher, apply_patch_memory, compress_zlib, decompress_zlib,
@@ -56,6 +66,37 @@ fn err_class(e: &ZbsdiffError) -> &'static str {
         ZbsdiffError::InvalidSize { .. } | ZbsdiffError::SizeTooLarge(_) | ZbsdiffError::InvalidSignature { .. } => "err:header",
         _ => "err:other",
     }
+}
+
+/// smallest byte string written as a reference (`@d` …) on a request line
+const REF_MIN: usize = 4096;
+/// smallest byte string answered as `#<len>:<fnv>` instead of hex
+const DIGEST_MIN: usize = 16384;
+/// smallest old content whose suffix array goes on its own `sa` line
+const SA_REF_MIN: usize = 4096;
+
+fn fnv1a(b: &[u8]) -> u64 {
+    let mut h = 0xcbf2_9ce4_8422_2325u64;
+    for x in b {
+        h ^= *x as u64;
+        h = h.wrapping_mul(0x0100_0000_01b3);
+    }
+    h
+}
+
+/// response-side byte string: hex, or length + digest from DIGEST_MIN bytes on
+fn hexd(b: &[u8]) -> String {
+    if b.len() < DIGEST_MIN { hex(b) } else { format!("#{}:{:016x}", b.len(), fnv1a(b)) }
+}
+
+/// byte count denoted by a response byte string (`-`, hex, or `#<len>:<fnv>`)
+fn resp_len(r: &str) -> i64 {
+    if r == "-" { 0 } else if let Some(x) = r.strip_prefix('#') { x.split(':').next().and_then(|n| n.parse().ok()).unwrap_or(-1) } else { r.len() as i64 / 2 }
+}
+
+/// text used in distinct-case keys
+fn keyb(b: &[u8]) -> String {
+    if b.len() < REF_MIN { hex(b) } else { format!("#{}:{:016x}", b.len(), fnv1a(b)) }
 }
 
 /// error classes of the whole-patch entry points (header / zlib / old-source errors kept apart)
@@ -156,22 +197,22 @@ fn raw_split(p: &[u8]) -> Option<(&[u8], &[u8], &[u8])> {
 }
 
 /// zlib table for an `applyp` line: what the real decompress_zlib returns on each of the three slices
-fn unz_pairs(p: &[u8]) -> String {
+fn unz_pairs(st: &St, p: &[u8]) -> String {
     let mut t = String::new();
     if let Some((c, d, e)) = raw_split(p) {
         for sl in [c, d, e] {
-            let v = match decompress_zlib(sl) { Ok(v) => hex(&v), Err(_) => "!".into() };
-            t.push_str(&format!(" {} {}", hex(sl), v));
+            let v = match decompress_zlib(sl) { Ok(v) => enc(st, &v), Err(_) => "!".into() };
+            t.push_str(&format!(" {} {}", enc(st, sl), v));
         }
     }
     t
 }
 
 /// zlib table for a `buildp` line: what the real compress_zlib returns on each inflated block
-fn z_pairs(b: &Blocks) -> String {
+fn z_pairs(st: &St, b: &Blocks) -> String {
     let mut t = String::new();
     for blk in [&b.raw, &b.diff, &b.extra] {
-        t.push_str(&format!(" {} {}", hex(blk), hex(&compress_zlib(blk).expect("zlib"))));
+        t.push_str(&format!(" {} {}", enc(st, blk), hex(&compress_zlib(blk).expect("zlib"))));
     }
     t
 }
@@ -218,7 +259,7 @@ fn split_patch(patch: &[u8]) -> Result<Blocks, String> {
 
 fn fmt_blocks(b: &Blocks) -> String {
     let c: Vec<String> = b.ctl.iter().map(|(d, e, s)| format!("{d},{e},{s}")).collect();
-    format!("ctl={} raw={} diff={} extra={} out={}", if c.is_empty() { "-".to_string() } else { c.join(";") }, hex(&b.raw), hex(&b.diff), hex(&b.extra), b.out)
+    format!("ctl={} raw={} diff={} extra={} out={}", if c.is_empty() { "-".to_string() } else { c.join(";") }, hexd(&b.raw), hexd(&b.diff), hexd(&b.extra), b.out)
 }
 
 /// assemble patch bytes from raw blocks (header written by hand, little-endian)
@@ -293,6 +334,67 @@ fn suffix_array(old: &[u8]) -> Vec<usize> {
 struct St {
     old: Vec<u8>,
     new: Vec<u8>,
+    /// blocks of the last build / buildp line that returned a (parsable) patch
+    last: Option<Blocks>,
+    /// patch bytes of the last buildp line
+    patch: Option<Vec<u8>>,
+}
+
+/// request-side byte string: a reference when the bytes ARE the referenced thing, else hex
+fn enc(st: &St, b: &[u8]) -> String {
+    if b.len() >= REF_MIN {
+        if let Some(l) = &st.last {
+            if b == &l.raw[..] { return "@c".into(); }
+            if b == &l.diff[..] { return "@d".into(); }
+            if b == &l.extra[..] { return "@e".into(); }
+        }
+        if let Some(p) = &st.patch {
+            if b == &p[..] { return "@p".into(); }
+            if let Some((c, d, e)) = raw_split(p) {
+                if b == c { return "@zc".into(); }
+                if b == d { return "@zd".into(); }
+                if b == e { return "@ze".into(); }
+            }
+        }
+    }
+    hex(b)
+}
+
+/// a byte-string token of a request line
+fn tokb(st: &St, t: &str) -> Option<Vec<u8>> {
+    match t {
+        "@c" => st.last.as_ref().map(|l| l.raw.clone()),
+        "@d" => st.last.as_ref().map(|l| l.diff.clone()),
+        "@e" => st.last.as_ref().map(|l| l.extra.clone()),
+        "@p" => st.patch.clone(),
+        "@zc" | "@zd" | "@ze" => {
+            let p = st.patch.as_ref()?;
+            let (c, d, e) = raw_split(p)?;
+            Some(match t { "@zc" => c, "@zd" => d, _ => e }.to_vec())
+        }
+        _ => unhex(t),
+    }
+}
+
+/// a `build` (whole = false) or `buildp` line: run the real builder, remember its blocks / bytes
+fn do_build(st: &mut St, kind: &str, blk: usize, whole: bool) -> String {
+    st.last = None;
+    st.patch = None;
+    match build(kind, blk, &st.old, &st.new) {
+        Err(e) => e,
+        Ok(p) => {
+            let sp = split_patch(&p);
+            let resp = if whole { hexd(&p) } else {
+                match &sp {
+                    Ok(b) => fmt_blocks(b),
+                    Err(e) => format!("unparsable-patch:{}", e.split(':').next().unwrap_or("")),
+                }
+            };
+            st.last = sp.ok();
+            if whole { st.patch = Some(p); }
+            resp
+        }
+    }
 }
 
 fn run_line(st: &mut St, toks: &[&str]) -> Option<String> {
@@ -300,26 +402,31 @@ fn run_line(st: &mut St, toks: &[&str]) -> Option<String> {
         ["begin", o, n] => {
             st.old = unhex(o)?;
             st.new = unhex(n)?;
+            st.last = None;
+            st.patch = None;
             "ok".into()
         }
-        ["build", "simple"] => build_resp(build("simple", 1 << 20, &st.old, &st.new)),
-        ["build", "chunked", blk] => build_resp(build("chunked", blk.parse().ok()?, &st.old, &st.new)),
-        ["build", "suffix", _sa] => build_resp(build("suffix", 1 << 20, &st.old, &st.new)),
+        // the real builder computes its own suffix array (divsufsort); the line is for the model
+        ["sa", sa] => { if *sa != "-" && !sa.split(',').all(|x| x.parse::<usize>().is_ok()) { return None; } "ok".into() }
+        ["build", "simple"] => do_build(st, "simple", 1 << 20, false),
+        ["build", "chunked", blk] => do_build(st, "chunked", blk.parse().ok()?, false),
+        ["build", "suffix", _sa] => do_build(st, "suffix", 1 << 20, false),
+        ["build", "suffixb", blk, _sa] => do_build(st, "suffixb", blk.parse().ok()?, false),
         ["apply", "mem", c, d, e, out] => {
-            let p = make_patch(&unhex(c)?, &unhex(d)?, &unhex(e)?, out.parse().ok()?);
+            let p = make_patch(&tokb(st, c)?, &tokb(st, d)?, &tokb(st, e)?, out.parse().ok()?);
             apply_resp(apply(Mode::Mem, &st.old, &p))
         }
         ["apply", "stream", buf, c, d, e, out] => {
-            let p = make_patch(&unhex(c)?, &unhex(d)?, &unhex(e)?, out.parse().ok()?);
+            let p = make_patch(&tokb(st, c)?, &tokb(st, d)?, &tokb(st, e)?, out.parse().ok()?);
             apply_resp(apply(Mode::Stream(buf.parse().ok()?), &st.old, &p))
         }
         ["apply", "streamc", caller, buf, c, d, e, out] => {
             // the caller-supplied expected size differs from the header's (API probe)
-            let p = make_patch(&unhex(c)?, &unhex(d)?, &unhex(e)?, out.parse().ok()?);
+            let p = make_patch(&tokb(st, c)?, &tokb(st, d)?, &tokb(st, e)?, out.parse().ok()?);
             apply_resp(apply_stream_caller(caller.parse().ok()?, buf.parse().ok()?, &st.old, &p))
         }
         ["apply", "streamd", c, d, e, out] => {
-            let p = make_patch(&unhex(c)?, &unhex(d)?, &unhex(e)?, out.parse().ok()?);
+            let p = make_patch(&tokb(st, c)?, &tokb(st, d)?, &tokb(st, e)?, out.parse().ok()?);
             let r = catch(AssertUnwindSafe(|| {
                 let h = ZbsdiffHeader::parse_from_patch(&p)?;
                 ZbsdiffPatcher::new(Cursor::new(st.old.clone()), h.output_size as usize).apply_patch_from_data(&p)
@@ -328,20 +435,21 @@ fn run_line(st: &mut St, toks: &[&str]) -> Option<String> {
         }
         ["apply", "sread", ks, buf, c, d, e, out] => {
             let ks: Vec<usize> = ks.split(',').map(|x| x.parse().ok()).collect::<Option<Vec<_>>>()?;
-            let p = make_patch(&unhex(c)?, &unhex(d)?, &unhex(e)?, out.parse().ok()?);
+            let p = make_patch(&tokb(st, c)?, &tokb(st, d)?, &tokb(st, e)?, out.parse().ok()?);
             apply_resp(apply_src(&ks, true, Some(buf.parse().ok()?), &st.old, &p))
         }
         ["apply", "noseek", buf, c, d, e, out] => {
-            let p = make_patch(&unhex(c)?, &unhex(d)?, &unhex(e)?, out.parse().ok()?);
+            let p = make_patch(&tokb(st, c)?, &tokb(st, d)?, &tokb(st, e)?, out.parse().ok()?);
             apply_resp(apply_src(&[1], false, Some(buf.parse().ok()?), &st.old, &p))
         }
-        ["buildp", "simple", ..] => buildp_resp(build("simple", 1 << 20, &st.old, &st.new)),
-        ["buildp", "chunked", blk, ..] => buildp_resp(build("chunked", blk.parse().ok()?, &st.old, &st.new)),
-        ["buildp", "suffix", _sa, ..] => buildp_resp(build("suffix", 1 << 20, &st.old, &st.new)),
-        ["applyp", "mem", p, ..] => apply_resp(apply_p(Mode::Mem, &st.old, &unhex(p)?)),
-        ["applyp", "stream", buf, p, ..] => apply_resp(apply_p(Mode::Stream(buf.parse().ok()?), &st.old, &unhex(p)?)),
+        ["buildp", "simple", ..] => do_build(st, "simple", 1 << 20, true),
+        ["buildp", "chunked", blk, ..] => do_build(st, "chunked", blk.parse().ok()?, true),
+        ["buildp", "suffix", _sa, ..] => do_build(st, "suffix", 1 << 20, true),
+        ["buildp", "suffixb", blk, _sa, ..] => do_build(st, "suffixb", blk.parse().ok()?, true),
+        ["applyp", "mem", p, ..] => apply_resp(apply_p(Mode::Mem, &st.old, &tokb(st, p)?)),
+        ["applyp", "stream", buf, p, ..] => apply_resp(apply_p(Mode::Stream(buf.parse().ok()?), &st.old, &tokb(st, p)?)),
         ["hdr", p] => {
-            let p = unhex(p)?;
+            let p = tokb(st, p)?;
             match catch(AssertUnwindSafe(|| ZbsdiffHeader::parse_from_patch(&p))) {
                 Err(_) => "panic".into(),
                 Ok(Ok(h)) => format!("ok {} {} {}", h.control_size, h.diff_size, h.output_size),
@@ -349,13 +457,13 @@ fn run_line(st: &mut St, toks: &[&str]) -> Option<String> {
             }
         }
         ["container", p] => {
-            let p = unhex(p)?;
+            let p = tokb(st, p)?;
             match catch(AssertUnwindSafe(|| ZbsDiff::parse(&p))) {
                 Err(_) => "panic".into(),
                 Ok(Ok(z)) => {
                     let same = z.build().map(|b| b == p).unwrap_or(false);
                     format!("ok {} {} {} c={} d={} e={} rebuilt={}", z.header.control_size, z.header.diff_size, z.header.output_size,
-                        hex(&z.control_data), hex(&z.diff_data), hex(&z.extra_data), if same { "same" } else { "differs" })
+                        hexd(&z.control_data), hexd(&z.diff_data), hexd(&z.extra_data), if same { "same" } else { "differs" })
                 }
                 Ok(Err(e)) => err_class_p(&e),
             }
@@ -392,13 +500,6 @@ fn run_line(st: &mut St, toks: &[&str]) -> Option<String> {
     })
 }
 
-fn buildp_resp(r: Result<Vec<u8>, String>) -> String {
-    match r {
-        Ok(p) => hex(&p),
-        Err(e) => e,
-    }
-}
-
 fn apply_stream_caller(caller: usize, buf: usize, old: &[u8], patch: &[u8]) -> Result<Vec<u8>, String> {
     let r = catch(AssertUnwindSafe(|| {
         ZbsdiffPatcher::new(Cursor::new(old.to_vec()), caller).with_buffer_size(buf).apply_patch_from_data(patch)
@@ -410,19 +511,9 @@ fn apply_stream_caller(caller: usize, buf: usize, old: &[u8], patch: &[u8]) -> R
     }
 }
 
-fn build_resp(r: Result<Vec<u8>, String>) -> String {
-    match r {
-        Ok(p) => match split_patch(&p) {
-            Ok(b) => fmt_blocks(&b),
-            Err(e) => format!("unparsable-patch:{}", e.split(':').next().unwrap_or("")),
-        },
-        Err(e) => e,
-    }
-}
-
 fn apply_resp(r: Result<Vec<u8>, String>) -> String {
     match r {
-        Ok(v) => hex(&v),
+        Ok(v) => hexd(&v),
         Err(e) => e,
     }
 }
@@ -458,34 +549,67 @@ struct Ctx<'a> {
     st: St,
     bufs: Vec<usize>,
     mutate: bool,
+    /// max_diff_block_size values given to the SUFFIX builder (`build suffixb <blk>`), besides the default
+    sblks: Vec<usize>,
+    /// full replays still written for failing LARGE pairs (their begin line is up to ~1 MB)
+    big_replays: usize,
+}
+
+/// oracle failure of a pair; large pairs stop recording after a few failures (each replay carries
+/// the whole pair) — the suppressed ones are tallied
+fn fail(cx_s: &mut Session, big: bool, budget: &mut usize, sig: &str, msg: &str, replay: &[String]) {
+    if big {
+        if *budget == 0 {
+            cx_s.tally("oracle-fail-not-recorded.large-pair");
+            return;
+        }
+        *budget -= 1;
+    }
+    cx_s.oracle_fail(sig, msg, replay);
 }
 
 /// One (old,new) pair through every builder and patcher. `blks`: chunked block sizes to try.
 fn pair(cx: &mut Ctx, rng: &mut Rng, old: &[u8], new: &[u8], blks: &[usize], label: &str) {
     let s = &mut *cx.s;
+    let big = old.len().max(new.len()) >= DIGEST_MIN;
+    let budget = &mut cx.big_replays;
     let begin = format!("begin {} {}", hex(old), hex(new));
     emit(s, &mut cx.st, begin.clone());
     s.tally(&format!("pairs.{label}"));
     s.tally(&format!("size.new.{}", bucket(new.len())));
     s.tally(&format!("size.old.{}", bucket(old.len())));
     let sa = suffix_array(old);
-    let sa_txt = if sa.is_empty() { "-".to_string() } else { sa.iter().map(|x| x.to_string()).collect::<Vec<_>>().join(",") };
+    let sa_list = if sa.is_empty() { "-".to_string() } else { sa.iter().map(|x| x.to_string()).collect::<Vec<_>>().join(",") };
+    // everything a replay of this case needs before the build line
+    let mut pre = vec![begin.clone()];
+    let sa_txt = if old.len() >= SA_REF_MIN {
+        let l = format!("sa {sa_list}");
+        emit(s, &mut cx.st, l.clone());
+        pre.push(l);
+        "@sa".to_string()
+    } else { sa_list };
     let mut builds: Vec<(String, String)> = vec![("simple".into(), "build simple".into())];
     for b in blks {
         builds.push((format!("chunked:{b}"), format!("build chunked {b}")));
     }
     builds.push(("suffix".into(), format!("build suffix {sa_txt}")));
+    for b in &cx.sblks {
+        builds.push((format!("suffixb:{b}"), format!("build suffixb {b} {sa_txt}")));
+    }
+    let rp = |extra: &[&String]| -> Vec<String> { let mut v = pre.clone(); v.extend(extra.iter().map(|x| (*x).clone())); v };
+    let (kold, knew) = (keyb(old), keyb(new));
     for (bname, breq) in builds {
         let kind = bname.split(':').next().unwrap().to_string();
         let blk: usize = bname.split(':').nth(1).map(|x| x.parse().unwrap()).unwrap_or(1 << 20);
         emit(s, &mut cx.st, breq.clone());
         s.tally(&format!("build.{kind}"));
+        if kind == "suffixb" { s.tally(&format!("suffix-block-size.{}", if blk <= 32 { blk.to_string() } else { "33+".into() })); }
         let patch = match build(&kind, blk, old, new) {
             Ok(p) => p,
             Err(e) => {
                 // the property: every builder produces a patch for every pair
                 let shp = if new.is_empty() { "empty-new" } else if old.is_empty() { "empty-old" } else { "nonempty" };
-                s.oracle_fail(&format!("build-fails:{kind}:{shp}"), &format!("{bname} returned {e} for |old|={} |new|={}", old.len(), new.len()), &[begin.clone(), breq.clone()]);
+                fail(s, big, budget, &format!("build-fails:{kind}:{shp}"), &format!("{bname} returned {e} for |old|={} |new|={}", old.len(), new.len()), &rp(&[&breq]));
                 s.case(None);
                 s.tally(&format!("build-error.{e}"));
                 continue;
@@ -494,13 +618,24 @@ fn pair(cx: &mut Ctx, rng: &mut Rng, old: &[u8], new: &[u8], blks: &[usize], lab
         let b = match split_patch(&patch) {
             Ok(b) => b,
             Err(e) => {
-                s.oracle_fail(&format!("unparsable-patch:{kind}"), &format!("{bname}: {e}"), &[begin.clone(), breq.clone()]);
+                fail(s, big, budget, &format!("unparsable-patch:{kind}"), &format!("{bname}: {e}"), &rp(&[&breq]));
                 s.case(None);
                 continue;
             }
         };
         if b.out != new.len() as i64 {
-            s.oracle_fail(&format!("header-size:{kind}"), &format!("{bname}: header.output_size {} != |new| {}", b.out, new.len()), &[begin.clone(), breq.clone()]);
+            fail(s, big, budget, &format!("header-size:{kind}"), &format!("{bname}: header.output_size {} != |new| {}", b.out, new.len()), &rp(&[&breq]));
+        }
+        // block sizes reached (inflated and as stored): readers that work through fixed buffers
+        // behave differently from 16 / 32 / 64 KiB on
+        if let Some((zc, zd, ze)) = raw_split(&patch) {
+            for (nm, infl, z) in [("control", b.raw.len(), zc.len()), ("diff", b.diff.len(), zd.len()), ("extra", b.extra.len(), ze.len())] {
+                if infl >= DIGEST_MIN { s.tally(&format!("block.{nm}.inflated.{}", kib_bucket(infl))); }
+                if z >= DIGEST_MIN { s.tally(&format!("block.{nm}.compressed.{}", kib_bucket(z))); }
+            }
+        }
+        if kind == "suffixb" && blk > 0 && b.ctl.iter().enumerate().any(|(i, c)| c.0 as usize >= 2 * blk && c.0 as usize % blk == 0 && (c.1 > 0 || (c.2 != 0 && i + 1 < b.ctl.len()))) {
+            s.tally("suffix-diff-run-exact-multiple-of-block-size-then-extra-or-seek");
         }
         let shp = shape(&b.ctl);
         s.tally(&format!("shape.{kind}.{shp}"));
@@ -515,7 +650,7 @@ fn pair(cx: &mut Ctx, rng: &mut Rng, old: &[u8], new: &[u8], blks: &[usize], lab
         let mut mem_result: Option<Result<Vec<u8>, String>> = None;
         for m in modes {
             // K line: the Lean apply over the same blocks is the independent bspatch
-            let areq = format!("apply {} {} {} {} {}", mode_txt(m), hex(&craw), hex(&b.diff), hex(&b.extra), b.out);
+            let areq = format!("apply {} {} {} {} {}", mode_txt(m), enc(&cx.st, &craw), enc(&cx.st, &b.diff), enc(&cx.st, &b.extra), b.out);
             emit(s, &mut cx.st, areq.clone());
             // O: on the patch BYTES the builder returned
             let got = apply(m, old, &patch);
@@ -526,41 +661,46 @@ fn pair(cx: &mut Ctx, rng: &mut Rng, old: &[u8], new: &[u8], blks: &[usize], lab
                 Ok(v) => {
                     let what = if v.len() != new.len() { "wrong-length" } else { "wrong-bytes" };
                     let pos = v.iter().zip(new.iter()).position(|(a, b)| a != b).unwrap_or(v.len().min(new.len()));
-                    s.oracle_fail(&format!("{what}:{kind}:{shp}"), &format!("{bname} patch applied by {} returns Ok with {} bytes differing from new at offset {pos} (|old|={} |new|={})", mode_txt(m), v.len(), old.len(), new.len()), &[begin.clone(), breq.clone(), areq.clone()]);
+                    fail(s, big, budget, &format!("{what}:{kind}:{shp}"), &format!("{bname} patch applied by {} returns Ok with {} bytes differing from new at offset {pos} (|old|={} |new|={})", mode_txt(m), v.len(), old.len(), new.len()), &rp(&[&breq, &areq]));
                 }
                 Err(e) => {
-                    s.oracle_fail(&format!("apply-fails:{kind}:{shp}"), &format!("{bname} patch rejected by {}: {e}", mode_txt(m)), &[begin.clone(), breq.clone(), areq.clone()]);
+                    fail(s, big, budget, &format!("apply-fails:{kind}:{shp}"), &format!("{bname} patch rejected by {}: {e} (|old|={} |new|={}, inflated blocks control {} / diff {} / extra {} bytes, patch {} bytes)", mode_txt(m), old.len(), new.len(), b.raw.len(), b.diff.len(), b.extra.len(), patch.len()), &rp(&[&breq, &areq]));
                 }
             }
             if let Ok(v) = &got {
                 if v.len() as i64 != b.out {
-                    s.oracle_fail(&format!("ok-length:{mname}"), &format!("Ok output of {} bytes, header says {}", v.len(), b.out), &[begin.clone(), breq.clone(), areq.clone()]);
+                    fail(s, big, budget, &format!("ok-length:{mname}"), &format!("Ok output of {} bytes, header says {}", v.len(), b.out), &rp(&[&breq, &areq]));
                 }
             }
             match (&mem_result, m) {
                 (None, Mode::Mem) => mem_result = Some(got.clone()),
                 (Some(mr), Mode::Stream(_)) => {
                     if *mr != got {
-                        s.oracle_fail("patchers-disagree", &format!("{bname}: memory patcher {:?} vs {} {:?}", mr.as_ref().map(|v| v.len()), mode_txt(m), got.as_ref().map(|v| v.len())), &[begin.clone(), breq.clone(), areq.clone()]);
+                        fail(s, big, budget, "patchers-disagree", &format!("{bname}: memory patcher {:?} vs {} {:?}", mr.as_ref().map(|v| v.len()), mode_txt(m), got.as_ref().map(|v| v.len())), &rp(&[&breq, &areq]));
                     }
                 }
                 _ => {}
             }
-            let key = format!("{bname}|{}|{}|{}", mode_txt(m), hex(old), hex(new));
+            let key = format!("{bname}|{}|{kold}|{knew}", mode_txt(m));
             s.case(if nontrivial { Some(&key) } else { None });
         }
         // --- whole patch BYTES (K): the model assembles header + zlib framing from its own blocks and
         //     must return the very bytes the builder returned; then both entry points on those bytes
-        let bpreq = format!("buildp {}{}", &breq["build ".len()..], z_pairs(&b));
-        emit(s, &mut cx.st, bpreq);
+        let bpreq = format!("buildp {}{}", &breq["build ".len()..], z_pairs(&cx.st, &b));
+        emit(s, &mut cx.st, bpreq.clone());
         s.tally("bytes.buildp");
-        let zt = unz_pairs(&patch);
-        emit(s, &mut cx.st, format!("applyp mem {}{}", hex(&patch), zt));
-        emit(s, &mut cx.st, format!("applyp stream {} {}{}", cx.bufs[0], hex(&patch), zt));
-        s.tally_n("bytes.applyp", 2);
-        if rng.chance(1, 8) {
-            emit(s, &mut cx.st, format!("hdr {}", hex(&patch)));
-            emit(s, &mut cx.st, format!("container {}", hex(&patch)));
+        let zt = unz_pairs(&cx.st, &patch);
+        let ptxt = enc(&cx.st, &patch);
+        emit(s, &mut cx.st, format!("applyp mem {ptxt}{zt}"));
+        s.tally("bytes.applyp");
+        let pbufs: Vec<usize> = if big { cx.bufs.clone() } else { vec![cx.bufs[0]] };
+        for pb in pbufs {
+            emit(s, &mut cx.st, format!("applyp stream {pb} {ptxt}{zt}"));
+            s.tally("bytes.applyp");
+        }
+        if big || rng.chance(1, 8) {
+            emit(s, &mut cx.st, format!("hdr {ptxt}"));
+            emit(s, &mut cx.st, format!("container {ptxt}"));
             s.tally("bytes.container-intact");
         }
         // --- short-reading old source: K on the blocks, O on the patch bytes
@@ -574,36 +714,38 @@ fn pair(cx: &mut Ctx, rng: &mut Rng, old: &[u8], new: &[u8], blks: &[usize], lab
             };
             let bf = *rng.pick(&cx.bufs);
             let kst = ks.iter().map(|k| k.to_string()).collect::<Vec<_>>().join(",");
-            let areq = format!("apply sread {kst} {bf} {} {} {} {}", hex(&craw), hex(&b.diff), hex(&b.extra), b.out);
+            let areq = format!("apply sread {kst} {bf} {} {} {} {}", enc(&cx.st, &craw), enc(&cx.st, &b.diff), enc(&cx.st, &b.extra), b.out);
             emit(s, &mut cx.st, areq.clone());
             s.tally("apply.short-read");
             let got = apply_src(&ks, true, Some(bf), old, &patch);
             match &got {
                 Ok(v) if v == new => {}
-                Ok(v) => s.oracle_fail(&format!("short-read-wrong-output:{kind}"), &format!("{bname} patch applied through a source returning <= {kst} bytes per read: Ok with {} bytes differing from new", v.len()), &[begin.clone(), breq.clone(), areq.clone()]),
-                Err(e) => s.oracle_fail(&format!("short-read-fails:{kind}"), &format!("{bname} patch rejected ({e}) when the old file is read through a source returning <= {kst} bytes per read"), &[begin.clone(), breq.clone(), areq.clone()]),
+                Ok(v) => fail(s, big, budget, &format!("short-read-wrong-output:{kind}"), &format!("{bname} patch applied through a source returning <= {kst} bytes per read: Ok with {} bytes differing from new", v.len()), &rp(&[&breq, &areq])),
+                Err(e) => fail(s, big, budget, &format!("short-read-fails:{kind}"), &format!("{bname} patch rejected ({e}) when the old file is read through a source returning <= {kst} bytes per read"), &rp(&[&breq, &areq])),
             }
             if let Some(mr) = &mem_result {
                 if mr.as_ref().ok() != got.as_ref().ok() {
-                    s.oracle_fail("short-read-disagrees", &format!("{bname}: memory patcher {:?} vs short-reading source {:?}", mr.as_ref().map(|v| v.len()), got.as_ref().map(|v| v.len())), &[begin.clone(), breq.clone(), areq.clone()]);
+                    fail(s, big, budget, "short-read-disagrees", &format!("{bname}: memory patcher {:?} vs short-reading source {:?}", mr.as_ref().map(|v| v.len()), got.as_ref().map(|v| v.len())), &rp(&[&breq, &areq]));
                 }
             }
-            let key = format!("sread|{bname}|{kst}|{bf}|{}|{}", hex(old), hex(new));
+            let key = format!("sread|{bname}|{kst}|{bf}|{kold}|{knew}");
             s.case(if nontrivial && !old.is_empty() { Some(&key) } else { None });
         }
         // mutated patches: Ok => exactly header.output_size bytes; memory == streaming
+        // (references in their request lines resolve against the buildp line above)
         if cx.mutate && rng.chance(1, 3) {
-            mutated(s, &mut cx.st, rng, old, &b, &begin);
+            mutated(s, &mut cx.st, rng, old, &b, &rp(&[&bpreq]));
         }
         if cx.mutate && rng.chance(1, 3) {
-            mutated_bytes(s, &mut cx.st, rng, old, &patch, &begin);
+            mutated_bytes(s, &mut cx.st, rng, old, &patch, &rp(&[&bpreq]));
         }
     }
 }
 
 /// byte-level damage to a real patch: header fields, signature, truncation, garbage — the length
 /// clause and memory == streaming on the WHOLE bytes, plus K on the header / container readers
-fn mutated_bytes(s: &mut Session, st: &mut St, rng: &mut Rng, old: &[u8], patch: &[u8], begin: &str) {
+fn mutated_bytes(s: &mut Session, st: &mut St, rng: &mut Rng, old: &[u8], patch: &[u8], ctx: &[String]) {
+    let with = |l: &String| -> Vec<String> { let mut v = ctx.to_vec(); v.push(l.clone()); v };
     let mut p = patch.to_vec();
     let put = |p: &mut Vec<u8>, off: usize, v: i64| { if p.len() >= off + 8 { p[off..off + 8].copy_from_slice(&v.to_le_bytes()); } };
     let get = |p: &[u8], off: usize| i64::from_le_bytes(p[off..off + 8].try_into().unwrap());
@@ -621,8 +763,8 @@ fn mutated_bytes(s: &mut Session, st: &mut St, rng: &mut Rng, old: &[u8], patch:
         _ => { let (c, d) = (get(&p, 8), get(&p, 16)); let rest = p.len() as i64 - 32 - c - d; let v = d + rest + *rng.pick(&[0i64, 1]); put(&mut p, 16, v); "diff-takes-extra" }
     };
     s.tally(&format!("byte-mutation.{name}"));
-    let zt = unz_pairs(&p);
-    let hx = hex(&p);
+    let zt = unz_pairs(st, &p);
+    let hx = enc(st, &p);
     emit(s, st, format!("hdr {hx}"));
     emit(s, st, format!("container {hx}"));
     let stated: Option<i64> = if p.len() >= 32 { Some(get(&p, 24)) } else { None };
@@ -635,21 +777,31 @@ fn mutated_bytes(s: &mut Session, st: &mut St, rng: &mut Rng, old: &[u8], patch:
         s.tally(&format!("byte-mutated-result.{}", if got.is_ok() { "ok" } else { r.as_str() }));
         if let Ok(v) = &got {
             if stated != Some(v.len() as i64) {
-                s.oracle_fail(&format!("ok-length-bytes:{mname}"), &format!("byte mutation {name}: Ok output of {} bytes, header says {:?}", v.len(), stated), &[begin.to_string(), areq.clone()]);
+                s.oracle_fail(&format!("ok-length-bytes:{mname}"), &format!("byte mutation {name}: Ok output of {} bytes, header says {:?}", v.len(), stated), &with(&areq));
             }
         }
         if got.as_ref().err().map(|e| e == "panic").unwrap_or(false) {
-            s.oracle_fail(&format!("apply-panics-bytes:{mname}"), &format!("byte mutation {name}: panic"), &[begin.to_string(), areq.clone()]);
+            s.oracle_fail(&format!("apply-panics-bytes:{mname}"), &format!("byte mutation {name}: panic"), &with(&areq));
         }
         match &mem {
             None => mem = Some(got.clone()),
             Some(mr) => {
                 if mr.as_ref().ok() != got.as_ref().ok() {
-                    s.oracle_fail("patchers-disagree-bytes", &format!("byte mutation {name}: memory {:?} vs streaming {:?}", mr.as_ref().map(|v| v.len()), got.as_ref().map(|v| v.len())), &[begin.to_string(), areq.clone()]);
+                    s.oracle_fail("patchers-disagree-bytes", &format!("byte mutation {name}: memory {:?} vs streaming {:?}", mr.as_ref().map(|v| v.len()), got.as_ref().map(|v| v.len())), &with(&areq));
                 }
             }
         }
-        s.case(Some(&format!("bmut|{areq}|{}", hex(old))));
+        s.case(Some(&format!("bmut|{areq}|{}", keyb(old))));
+    }
+}
+
+fn kib_bucket(n: usize) -> &'static str {
+    match n {
+        0..=16383 => "<16K",
+        16384..=32767 => "16K-32K",
+        32768..=65535 => "32K-64K",
+        65536..=131071 => "64K-128K",
+        _ => "128K+",
     }
 }
 
@@ -660,12 +812,14 @@ fn bucket(n: usize) -> &'static str {
         8..=63 => "8-63",
         64..=263 => "64-263",
         264..=1023 => "264-1023",
-        _ => "1024+",
+        1024..=16383 => "1024+",
+        _ => "16K+",
     }
 }
 
 /// arbitrary patches derived from a real one: the length clause of the property
-fn mutated(s: &mut Session, st: &mut St, rng: &mut Rng, old: &[u8], b: &Blocks, begin: &str) {
+fn mutated(s: &mut Session, st: &mut St, rng: &mut Rng, old: &[u8], b: &Blocks, ctx: &[String]) {
+    let with = |l: &String| -> Vec<String> { let mut v = ctx.to_vec(); v.push(l.clone()); v };
     let mut ctl = b.ctl.clone();
     let mut diff = b.diff.clone();
     let mut extra = b.extra.clone();
@@ -712,28 +866,28 @@ fn mutated(s: &mut Session, st: &mut St, rng: &mut Rng, old: &[u8], b: &Blocks, 
     let p = make_patch(&craw, &diff, &extra, out);
     let mut mem: Option<Result<Vec<u8>, String>> = None;
     for m in [Mode::Mem, Mode::Stream(1024)] {
-        let areq = format!("apply {} {} {} {} {}", mode_txt(m), hex(&craw), hex(&diff), hex(&extra), out);
+        let areq = format!("apply {} {} {} {} {}", mode_txt(m), enc(st, &craw), enc(st, &diff), enc(st, &extra), out);
         let r = emit(s, st, areq.clone());
         let got = apply(m, old, &p);
         let mname = match m { Mode::Mem => "mem", Mode::Stream(_) => "stream" };
         s.tally(&format!("mutated-result.{}", if got.is_ok() { "ok" } else { r.as_str() }));
         if let Ok(v) = &got {
             if v.len() as i64 != out {
-                s.oracle_fail(&format!("ok-length:{mname}"), &format!("mutation {name}: Ok output of {} bytes, header says {out}", v.len()), &[begin.to_string(), areq.clone()]);
+                s.oracle_fail(&format!("ok-length:{mname}"), &format!("mutation {name}: Ok output of {} bytes, header says {out}", v.len()), &with(&areq));
             }
         }
         if got.as_ref().err().map(|e| e == "panic").unwrap_or(false) {
-            s.oracle_fail(&format!("apply-panics:{mname}"), &format!("mutation {name}: panic"), &[begin.to_string(), areq.clone()]);
+            s.oracle_fail(&format!("apply-panics:{mname}"), &format!("mutation {name}: panic"), &with(&areq));
         }
         match (&mem, m) {
             (None, _) => mem = Some(got.clone()),
             (Some(mr), _) => {
                 if *mr != got {
-                    s.oracle_fail("patchers-disagree", &format!("mutation {name}: memory {:?} vs streaming {:?}", mr.as_ref().map(|v| v.len()), got.as_ref().map(|v| v.len())), &[begin.to_string(), areq.clone()]);
+                    s.oracle_fail("patchers-disagree", &format!("mutation {name}: memory {:?} vs streaming {:?}", mr.as_ref().map(|v| v.len()), got.as_ref().map(|v| v.len())), &with(&areq));
                 }
             }
         }
-        s.case(Some(&format!("mut|{areq}|{}", hex(old))));
+        s.case(Some(&format!("mut|{areq}|{}", keyb(old))));
     }
 }
 
@@ -768,13 +922,133 @@ fn edit(rng: &mut Rng, old: &[u8], alpha: u64, edits: usize) -> Vec<u8> {
     v
 }
 
+/// max_diff_block_size values given to the suffix builder
+const SBLKS: [usize; 8] = [1, 2, 3, 4, 7, 8, 16, 32];
+
+fn cycle(unit: &[u8], n: usize) -> Vec<u8> {
+    (0..n).map(|j| unit[j % unit.len()]).collect()
+}
+
+/// compressible but not periodic: words of a small dictionary (zlib ratio ~3-4, short repeats only)
+fn wordy(rng: &mut Rng, n: usize) -> Vec<u8> {
+    let dict: Vec<Vec<u8>> = (0..48).map(|_| { let l = rng.range(2, 9) as usize; rand_bytes(rng, l, 16) }).collect();
+    let mut v = Vec::with_capacity(n + 16);
+    while v.len() < n {
+        let w = rng.pick(&dict).clone();
+        v.extend(w);
+        v.push(b' ');
+    }
+    v.truncate(n);
+    v
+}
+
+fn splice(old: &[u8], at: usize, del: usize, ins: &[u8]) -> Vec<u8> {
+    let at = at.min(old.len());
+    let e = (at + del).min(old.len());
+    [&old[..at], ins, &old[e..]].concat()
+}
+
+/// stream 4a (see main)
+fn large_blocks(cx: &mut Ctx, rng: &mut Rng, thorough: bool) {
+    let saved = (cx.bufs.clone(), cx.mutate);
+    cx.mutate = false;
+    cx.bufs = if thorough { vec![1024, 4096, 65536, 1, 16384, 1 << 20] } else { vec![1024, 4096, 65536] };
+
+    // boundary sweep: an incompressible extra block of n bytes around 16 / 32 / 64 KiB, small old
+    let all = [16383usize, 16384, 16385, 32740, 32757, 32767, 32768, 32769, 32800, 49152, 65535, 65536, 65537];
+    let sweep: Vec<usize> = if thorough { all.to_vec() } else {
+        vec![16384 + *rng.pick(&[0usize, 1]) - *rng.pick(&[0usize, 1]), *rng.pick(&[32740usize, 32757, 32767, 32768, 32769, 32800]), *rng.pick(&[65535usize, 65536, 65537])]
+    };
+    for (i, n) in sweep.iter().enumerate() {
+        let ol = *rng.pick(&[0usize, 64, 300]);
+        let old = rng.bytes(ol);
+        let x = rng.bytes(*n);
+        let new = match i % 3 { 0 => [old.clone(), x].concat(), 1 => [x, old.clone()].concat(), _ => splice(&old, old.len() / 2, 0, &x) };
+        cx.sblks = vec![*rng.pick(&SBLKS)];
+        pair(cx, rng, &old, &new, &[64], "large.boundary-sweep");
+    }
+
+    let sizes: Vec<usize> = if thorough { vec![40_000, 70_000, 200_000] } else { vec![40_000] };
+    // incompressible insert / append / prepend (extra block; inserted length a multiple of 256 lets
+    // the chunked builder re-synchronise behind it)
+    for (i, n) in sizes.iter().enumerate() {
+        let old = rng.bytes(4096);
+        let x = rng.bytes(*n);
+        let new = match i % 3 { 0 => [old.clone(), x].concat(), 1 => [x, old.clone()].concat(), _ => splice(&old, 1000, 0, &x) };
+        cx.sblks = vec![16];
+        pair(cx, rng, &old, &new, &[64, 1 << 20], "large.append-incompressible");
+    }
+    {
+        let n = if thorough { 256 * 782 } else { 256 * 274 }; // 200 192 / 70 144 bytes
+        let old = rng.bytes(8192);
+        let x = rng.bytes(n);
+        let new = splice(&old, 4096, if thorough { 100 } else { 0 }, &x);
+        cx.sblks = vec![*rng.pick(&SBLKS)];
+        let cb = *rng.pick(&[64usize, 256, 1 << 20]);
+        pair(cx, rng, &old, &new, &[cb], "large.insert-incompressible");
+    }
+    // incompressible DIFF block: every k-th byte of noise changed by a random amount (the suffix
+    // builder emits one diff run over the whole file; 1/k of its bytes are noise)
+    for (n, k) in if thorough { vec![(96_000usize, 3usize), (160_000, 4), (200_000, 8)] } else { vec![(96_000, 3)] } {
+        let old = rng.bytes(n);
+        let mut new = old.clone();
+        for j in (0..n).step_by(k) { new[j] = new[j].wrapping_add(1 + rng.below(255) as u8); }
+        cx.sblks = vec![*rng.pick(&[1usize, 2, 4, 8, 16, 32])];
+        pair(cx, rng, &old, &new, &[1 << 20], "large.diff-incompressible");
+    }
+    // compressible DIFF block: large noise file with a few point edits near the end
+    for n in if thorough { vec![70_000usize, 200_000] } else { vec![70_000] } {
+        let old = rng.bytes(n);
+        let mut new = old.clone();
+        for _ in 0..3 { let at = n - 1 - rng.below(n as u64 / 10) as usize; new[at] = new[at].wrapping_add(1 + rng.below(200) as u8); }
+        let new = if rng.chance(1, 2) { splice(&new, n - 40, 7, b"") } else { new };
+        cx.sblks = vec![*rng.pick(&[1usize, 2, 4, 8, 16, 32])];
+        let cb = *rng.pick(&[64usize, 1 << 20]);
+        pair(cx, rng, &old, &new, &[cb], "large.diff-compressible");
+    }
+    // compressible EXTRA block: a 200 KB run / periodic / dictionary-word insertion
+    for style in if thorough { vec![0u64, 1, 2, 3] } else { vec![rng.below(2), 2] } {
+        let n = 256 * 800; // 204 800
+        let x = match style { 0 => vec![rng.byte(); n], 1 => { let ul = *rng.pick(&[2usize, 3, 8, 100]); let u = rng.bytes(ul); cycle(&u, n) } 2 => wordy(rng, n), _ => rand_bytes(rng, n, 4) };
+        let old = rng.bytes(6000);
+        let new = splice(&old, 3000, 0, &x);
+        cx.sblks = vec![*rng.pick(&SBLKS)];
+        let cb = *rng.pick(&[64usize, 1 << 20]);
+        pair(cx, rng, &old, &new, &[cb], "large.insert-compressible");
+    }
+    // 200 KB of unrelated noise (every byte of new in the extra block; stored block > 128 KiB)
+    {
+        let old = rng.bytes(1000);
+        let new = rng.bytes(200_000);
+        cx.sblks = vec![];
+        pair(cx, rng, &old, &new, &[1 << 20], "large.unrelated-incompressible");
+    }
+    // large CONTROL block: new = thousands of short slices of old in random order (one control
+    // entry with a random seek each: the control block itself exceeds 32 KiB compressed)
+    {
+        let m = if thorough { 12_000 } else { 8_000 };
+        let old = rng.bytes(60_000);
+        let mut new = Vec::with_capacity(m * 17);
+        for _ in 0..m {
+            let l = rng.range(9, 24) as usize;
+            let at = rng.below((old.len() - l) as u64) as usize;
+            new.extend_from_slice(&old[at..at + l]);
+        }
+        cx.sblks = vec![*rng.pick(&SBLKS)];
+        pair(cx, rng, &old, &new, &[1 << 20], "large.many-entries");
+    }
+    cx.sblks = vec![];
+    cx.bufs = saved.0;
+    cx.mutate = saved.1;
+}
+
 fn main() {
     let args = Args::parse();
     quiet_panics();
     let mut s = Session::new(&args.out);
     s.rule = "every (old,new) over {a,b} with both lengths <= L (L=4 quick, 6 thorough) x {simple, chunked blk in {0,1,4,64}, suffix} x {memory, streaming buf 1024[,4096]}; seeded random pairs to 4 KiB (edits: insert/delete/move/repeat/replace/point, empty old, empty new, equal, unrelated; alphabets 2, 4, 256) incl. a dedicated stream whose change is followed by >= 264 unchanged bytes with the inserted length a multiple of 256 or a periodic tail (the only way the chunked builder re-synchronises after an extra run), match runs of length 3/4/5 around the >=4 threshold, block sizes around the match length; mutated patches (sizes +-1, truncated blocks, seeks before 0 / beyond EOF / saturating, dropped / appended / invalid / partial control records) for the length clause. every built patch also as WHOLE BYTES (buildp: model-assembled header + framing vs the builder's bytes; applyp through apply_patch_memory and parse_from_patch + apply_patch_from_data) and through a short-reading old source (read() returns <= 1 / 1,2,3 / 7,1 / three random sizes / unbounded bytes per call); byte-level damage of real patches (header truncated at 0..31, body truncated, signature bit, each size field set to -1 / 0 / +-1 / 1e9 / 1e9+1 / i64::MIN / i64::MAX / the bytes available, sizes swapped, diff swallowing the extra block, trailing garbage, body bit flip) for the length clause on bytes and memory == streaming; hand-made headers around every validate comparison; the private offtout / offtin at i64::MIN, MIN+1, MAX, +-0, +-2^56, +-2^62 and random magnitudes of every bit length; unseekable source; default buffer. non-trivial = built patch has a diff run or >= 2 control entries (or is a mutated patch / codec value / header probe; short-read cases need a non-empty old); distinct = (builder, patcher, old, new) text".into();
     let mut rng = Rng::new(args.seed);
-    let mut st = St { old: vec![], new: vec![] };
+    let mut st = St { old: vec![], new: vec![], last: None, patch: None };
 
     if let Some(p) = &args.replay {
         // a replay file holds request lines; re-evaluate the oracle on what they describe
@@ -787,7 +1061,7 @@ fn main() {
             match toks.as_slice() {
                 ["build", kind, rest @ ..] => {
                     cur_build = Some(l.clone());
-                    let blk = if *kind == "chunked" { rest.first().and_then(|x| x.parse().ok()).unwrap_or(1 << 20) } else { 1 << 20 };
+                    let blk = if *kind == "chunked" || *kind == "suffixb" { rest.first().and_then(|x| x.parse().ok()).unwrap_or(1 << 20) } else { 1 << 20 };
                     let begin = format!("begin {} {}", hex(&st.old), hex(&st.new));
                     match build(kind, blk, &st.old, &st.new) {
                         Err(e) => {
@@ -813,8 +1087,8 @@ fn main() {
                 ["applyp", _, rest @ ..] => {
                     // length clause on explicit patch BYTES
                     let ph = if toks[1] == "stream" { rest.get(1) } else { rest.first() };
-                    if let (Some(ph), false) = (ph.and_then(|x| unhex(x)), r.starts_with("err") || r == "bad-op" || r == "panic") {
-                        let n = if r == "-" { 0 } else { r.len() as i64 / 2 };
+                    if let (Some(ph), false) = (ph.and_then(|x| tokb(&st, x)), r.starts_with("err") || r == "bad-op" || r == "panic") {
+                        let n = resp_len(&r);
                         let stated = if ph.len() >= 32 { Some(i64::from_le_bytes(ph[24..32].try_into().unwrap())) } else { None };
                         if stated != Some(n) {
                             s.oracle_fail("ok-length-bytes:replay", &format!("Ok output of {n} bytes, header says {stated:?}"), &[format!("begin {} {}", hex(&st.old), hex(&st.new)), l.clone()]);
@@ -829,7 +1103,7 @@ fn main() {
                     // length clause on an explicit patch
                     let out: Option<i64> = toks.last().and_then(|x| x.parse().ok());
                     if let (Some(out), false) = (out, r.starts_with("err") || r == "bad-op" || r == "panic") {
-                        let n = if r == "-" { 0 } else { r.len() as i64 / 2 };
+                        let n = resp_len(&r);
                         if n != out {
                             let sig = if toks[1] == "streamc" { "stream-size-from-caller" } else { "ok-length:replay" };
                             s.oracle_fail(sig, &format!("Ok output of {n} bytes, header says {out}"), &[format!("begin {} {}", hex(&st.old), hex(&st.new)), l.clone()]);
@@ -850,7 +1124,7 @@ fn main() {
 
     let thorough = args.thorough();
     let bufs = if thorough { vec![1024, 4096, 1] } else { vec![1024] };
-    let mut cx = Ctx { s: &mut s, st, bufs, mutate: true };
+    let mut cx = Ctx { s: &mut s, st, bufs, mutate: true, sblks: vec![], big_replays: 6 };
 
     // 1. exhaustive over {a,b}
     let lmax = if thorough { 6 } else { 4 };
@@ -869,12 +1143,16 @@ fn main() {
         frontier = next;
     }
     cx.mutate = false;
+    // the suffix builder also under max_diff_block_size 1 / 2 (/ 3): every diff run of these pairs
+    // that is an exact multiple >= 2x of a block size is covered
+    cx.sblks = if thorough { vec![1, 2, 3] } else { vec![1, 2] };
     for o in &words {
         for n in &words {
             pair(&mut cx, &mut rng, o, n, &[0, 1, 4, 64], "exhaustive");
         }
     }
     cx.mutate = true;
+    cx.sblks = vec![2, 4];
 
     // 2. threshold cases: common prefix of exactly k bytes (k around 4), then divergence, and
     //    block sizes around k
@@ -921,7 +1199,54 @@ fn main() {
             }
         };
         let blks: Vec<usize> = vec![*rng.pick(&[4usize, 64, 1 << 20]), *rng.pick(&[5usize, 100, 256])];
+        cx.sblks = vec![*rng.pick(&SBLKS), *rng.pick(&SBLKS)];
         pair(&mut cx, &mut rng, &o, &n, &blks, "resync");
+    }
+
+    // 3a. the SUFFIX builder under a configured max_diff_block_size (with_max_diff_block_size(m).build()):
+    //     equal runs whose length is an exact multiple (>= 2x) of m — and of none — followed by a
+    //     deletion / insertion / replacement / move / repeat, so that the entry after the run carries
+    //     extra bytes or a seek. Every m in {1,2,3,4,7,8,16,32} (+ 0 / usize::MAX) on every pair.
+    //     (seeded change C16-3b — entries split by block size, extra/seek dropped on exact multiples —
+    //     slipped through while only the chunked builder was given block sizes)
+    let n_runs = if thorough { 160 } else { 32 };
+    let run_lens = [21usize, 24, 28, 32, 48, 64, 96];
+    for i in 0..n_runs {
+        let noise = rng.chance(1, 2);
+        let seg = |rng: &mut Rng, n: usize, base: u8| -> Vec<u8> {
+            if noise { rng.bytes(n) } else { (0..n).map(|j| base.wrapping_add(j as u8)).collect() }
+        };
+        let (la, lc, ld) = (*rng.pick(&run_lens), *rng.pick(&run_lens), *rng.pick(&run_lens));
+        let lb = *rng.pick(&[1usize, 5, 12, 32, 33, 64]);
+        let lx = *rng.pick(&[1usize, 3, 12, 32, 100]);
+        let a = seg(&mut rng, la, 0x10);
+        let b = seg(&mut rng, lb, 0x40);
+        let c = seg(&mut rng, lc, 0x80);
+        let d = seg(&mut rng, ld, 0xb0);
+        let x = seg(&mut rng, lx, 0xd8);
+        let cat = |v: &[&Vec<u8>]| -> Vec<u8> { v.iter().flat_map(|p| p.iter().copied()).collect() };
+        let (shape_name, o, n) = match i % 8 {
+            0 => ("delete", cat(&[&a, &b, &c]), cat(&[&a, &c])),
+            1 => ("insert", cat(&[&a, &c]), cat(&[&a, &x, &c])),
+            2 => ("replace", cat(&[&a, &b, &c]), cat(&[&a, &x, &c])),
+            3 => ("move", cat(&[&a, &c, &d]), cat(&[&a, &d, &c])),
+            4 => ("repeat", cat(&[&a, &c]), cat(&[&a, &c, &c])),
+            5 => ("two-deletions", cat(&[&a, &b, &c, &x, &d]), cat(&[&a, &c, &d])),
+            6 => {
+                // point changes inside the run (non-zero diff bytes), then a deletion
+                let mut a2 = a.clone();
+                let at = rng.below(la as u64) as usize;
+                a2[at] = a2[at].wrapping_add(1 + rng.below(200) as u8);
+                ("changed-run-delete", cat(&[&a, &b, &c]), cat(&[&a2, &c]))
+            }
+            _ => ("delete-insert", cat(&[&a, &b, &c, &d]), cat(&[&a, &c, &x, &d])),
+        };
+        cx.s.tally(&format!("runs.{shape_name}"));
+        cx.sblks = SBLKS.to_vec();
+        if i % 4 == 0 { cx.sblks.push(0); }
+        if i % 4 == 2 { cx.sblks.push(usize::MAX); }
+        let blks = [*rng.pick(&SBLKS)];
+        pair(&mut cx, &mut rng, &o, &n, &blks, "suffix-block-size");
     }
 
     // 3b. multi-chunk extra blocks: an inserted run longer than (and not a multiple of) the
@@ -942,6 +1267,7 @@ fn main() {
         let y = seg(&mut rng, l2);
         let o = [a.clone(), b.clone(), c.clone()].concat();
         let n = [a, x, b, y, c].concat();
+        cx.sblks = vec![*rng.pick(&SBLKS)];
         pair(&mut cx, &mut rng, &o, &n, &[64, 1 << 20], "multi-chunk-extra");
     }
 
@@ -960,8 +1286,18 @@ fn main() {
         };
         let old = if i % 11 == 3 { vec![] } else { old };             // empty old
         let blks: Vec<usize> = vec![*rng.pick(&[0usize, 1, 4, 64]), *rng.pick(&[4usize, 7, 64, 1 << 20])];
+        cx.sblks = vec![*rng.pick(&SBLKS), *rng.pick(&[0usize, 1, 2, 5, 64, 256, 1 << 20, usize::MAX])];
         pair(&mut cx, &mut rng, &old, &new, &blks, "random");
     }
+    cx.sblks = vec![];
+
+    // 4a. LARGE BLOCKS: control / diff / extra blocks of 16 KiB .. 200 KB, incompressible (the stored
+    //     block is as long as the inflated one) and compressible, through every builder, the memory
+    //     patcher and the streaming patcher with buffers below / around / above the block sizes.
+    //     (seeded change C16-1b — decompress_zlib through a fixed scratch buffer, stopping at the first
+    //     short read: any block whose COMPRESSED size exceeds 32 KiB truncated — slipped through while
+    //     no generated pair exceeded 4 KiB)
+    large_blocks(&mut cx, &mut rng, thorough);
     // 4b. API probe: streaming patcher built with an expected size other than the header's
     for _ in 0..(if thorough { 40 } else { 8 }) {
         let nlen = rng.range(1, 40) as usize;
@@ -1040,7 +1376,7 @@ fn main() {
             p.extend_from_slice(&ds.to_le_bytes());
             p.extend_from_slice(&os.to_le_bytes());
             p.extend(rng.bytes(10));
-            let zt = unz_pairs(&p);
+            let zt = unz_pairs(&cx.st, &p);
             emit(cx.s, &mut cx.st, format!("hdr {}", hex(&p)));
             emit(cx.s, &mut cx.st, format!("container {}", hex(&p)));
             emit(cx.s, &mut cx.st, format!("applyp mem {}{zt}", hex(&p)));
